@@ -1084,7 +1084,7 @@ def _f_skipped_fragment(P, R):
         if st != "ok":
             continue
         skipped = any(e[0] == "assume" and e[2] is True and ("eq",) not in e[1] and any(x[0] == "call" and x[1] == names["csd"] for x in e[1]) and FD & set(e[1]) for e in evs)
-        if not skipped:
+        if not skipped or any(e[0] == "capped" for e in evs):
             continue
         seen += 1
         if any(e[0] == "call" and e[1] == names["gf"] and any(a in _origin(x) for x in e[2] for a in INNER) for e in evs):
@@ -1093,7 +1093,8 @@ def _f_skipped_fragment(P, R):
             if e[0] == "elem" and SEL in e[1] and any(a in e[1] for a in INNER):
                 el = e[2].kids.get("#elem")
                 not_field = any(x[0] == "assume-not" and x[2] == "Field" and x[3] is el for x in evs) or (isinstance(el.ref, _Var) and el.ref.name != "Field")
-                deeper = any(x[0] in ("iter", "call") and (x[1] > el.origin if x[0] == "iter" else any(_origin(a) > el.origin for a in x[2])) for x in evs[i + 1:])
+                inside = _progeny(el)       # (by identity: provenance sets do not count how deep a nested fragment sits)
+                deeper = any((x[0] == "iter" and id(x[2]) in inside) or (x[0] == "call" and any(id(_d(a)) in inside or id(a) in inside for a in x[2])) for x in evs[i + 1:])
                 if not_field and not deeper:
                     bad = True
     _tri(R, "R02-f", "skip-table:skipped-fragment-keys", None if not seen else bad is None,
@@ -1102,6 +1103,27 @@ def _f_skipped_fragment(P, R):
          "a selection of that set that is not a field (a nested spread / inline fragment) without descending into it: the keys nested fragments contribute get no "
          "marker, so the skipped branch admits objects that carry them" % gf.path,
          "no abstract path of %s takes the skip test of a fragment to be true" % gf.path, loc=gf.loc())
+
+
+def _progeny(o):
+    """ids of the undetermined values that are components (fields, payloads, elements, ...) of `o`, `o` excluded"""
+    out, todo = set(), [o]
+    while todo:
+        x = todo.pop()
+        kids = []
+        if isinstance(x, _Opq):
+            kids = [k for k in x.kids.values() if not isinstance(k, int)] + ([x.ref] if x.ref is not None else [])
+        elif isinstance(x, _Var):
+            kids = list(x.args)
+        elif isinstance(x, _Obj):
+            kids = list(x.f.values())
+        elif isinstance(x, (tuple, list)):
+            kids = list(x)
+        for k in kids:
+            if id(k) not in out and isinstance(k, (_Opq, _Var, _Obj, tuple, list)):
+                out.add(id(k))
+                todo.append(k)
+    return out
 
 
 def _f_lookup_consistent(P):
@@ -2164,6 +2186,8 @@ class _Abs:
         if not top and (path in self.stops or self.stack.count(path) >= 8 or (path in self.once and path in self.stack)
                         or (path in self.stack and not any(isinstance(_d(a), (_Var, _Obj, list, tuple)) for a in args))):
             self.event("call", path, list(args))
+            if path not in self.stops and path not in self.once:
+                self.event("capped", "recursion")
             if path in self.hooks:
                 return self.hooks[path](self, list(args))
             return self.opq(short(path), *args, atoms=[("call", path)])
@@ -2336,7 +2360,11 @@ class _Abs:
         self.event("iter", o.origin, o)
         if "#n" not in o.kids:
             # (an element of an element of an element ... : the nesting of undetermined sequences is followed two levels deep)
-            o.kids["#n"] = self.choose(2) if o.lvl < 2 and sum(1 for e in self.events if e[0] == "elem") < 6 else 0
+            if o.lvl < 2 and sum(1 for e in self.events if e[0] == "elem") < 6:
+                o.kids["#n"] = self.choose(2)
+            else:
+                o.kids["#n"] = 0
+                self.event("capped", "elements")      # this path is cut short: nothing may be concluded from what is absent on it
             if o.kids["#n"]:
                 self.event("elem", o.origin, o)
 
